@@ -316,6 +316,13 @@ func (s *scope) Close() error {
 	return nil
 }
 
+// IsNotFound reports whether a resolution error means that the requested
+// service is not registered (as opposed to a registered service that failed to
+// construct). Optional parameter-object fields are left zero only in that case.
+func (s *scope) IsNotFound(err error) bool {
+	return errors.Is(err, ErrServiceNotFound)
+}
+
 // getInstance retrieves a cached instance from this scope in a thread-safe manner.
 // Returns the instance and true if found, or nil and false if not cached.
 func (s *scope) getInstance(key instanceKey) (any, bool) {
